@@ -2,7 +2,7 @@
 //
 // TRC <request…>            run one store request with tracing on; reply `<reply> | p1,p2,…`
 // KIL <point> <n> <request…> arm: `_exit(77)` at the n-th hit of <point>, then run the request
-// CON <point> <n> A=<request…> || B=<request…>
+// CON <point> <n>[:<ms>] A <request…> B <request…>
 //                            thread A runs its request and pauses at the n-th hit of <point>;
 //                            thread B then runs its request (150 ms to finish, else "blocked");
 //                            A is released; both replies and B's status are returned
@@ -134,7 +134,12 @@ pub fn handle(st: &mut St, cmd: &str, a: &[&str]) -> Result<String, String> {
         "CON" => {
             // CON <point> <n> A <request…> B <request…>
             let point = a[0].to_string();
-            let n: usize = a[1].parse().map_err(|_| "n".to_string())?;
+            // <n> or <n>:<ms>: how long B is given to finish while A is paused (default 150 ms)
+            let (ns, ms) = match a[1].split_once(':') {
+                Some((x, y)) => (x, y.parse::<u64>().map_err(|_| "ms".to_string())?),
+                None => (a[1], 150u64),
+            };
+            let n: usize = ns.parse().map_err(|_| "n".to_string())?;
             let bpos = a.iter().position(|x| *x == "B").ok_or("noB")?;
             if a[2] != "A" {
                 return Err("noA".into());
@@ -188,7 +193,7 @@ pub fn handle(st: &mut St, cmd: &str, a: &[&str]) -> Result<String, String> {
                     Err(_) => "panic".to_string(),
                 });
             });
-            let (b_reply, b_blocked) = match rxb.recv_timeout(Duration::from_millis(150)) {
+            let (b_reply, b_blocked) = match rxb.recv_timeout(Duration::from_millis(ms)) {
                 Ok(r) => (Some(r), false),
                 Err(_) => (None, true),
             };
